@@ -1,47 +1,74 @@
 #!/usr/bin/env python3
 """Run registered checks against the seeded mutations (development aid, not a registered check).
-usage: tools/mutants.py [sid ...] [--props C01,C02] [--tier quick]
-For each /verif/seeded/<sid>/patch.diff: git -C /repo apply, run ./check <prop> with evidence redirected to a scratch
-directory, then git -C /repo checkout -- .  Results are appended to /verif/seeded/results.json."""
+usage: tools/mutants.py [sid ...] [--props=C01,C02] [--tier=quick] [--jobs=4] [--seed=N]
+For each /verif/seeded/<sid>/patch.diff: a scratch worktree of /repo's HEAD is created under /tmp, the patch is applied THERE
+(never in /repo), ./check <prop> runs with VERIF_REPO pointing at the scratch tree and the evidence redirected, and the
+worktree is removed.  Results are merged into /verif/seeded/results.json (results_seed<N>.json with --seed)."""
 import json, os, subprocess, sys, time
+from concurrent.futures import ThreadPoolExecutor
 V = "/verif"
+
+
 def sh(cmd, env=None, timeout=3600):
     p = subprocess.run(cmd, shell=True, env=env, stdout=subprocess.PIPE, stderr=subprocess.STDOUT, text=True, timeout=timeout)
     return p.returncode, p.stdout
+
+
+def one(sid, plist, tier, seed):
+    wt = f"/tmp/mutwt_{sid}"
+    sh(f"git -C /repo worktree remove --force {wt}; rm -rf {wt}")
+    rc, out = sh(f"git -C /repo worktree add -q --detach {wt} HEAD")
+    res = {}
+    if rc != 0:
+        return sid, {"error": out[-200:]}
+    try:
+        sh(f"rm -rf {wt}/examples {wt}/docs")
+        rc, out = sh(f"git -C {wt} apply {V}/seeded/{sid}/patch.diff")
+        if rc != 0:
+            return sid, {"error": "PATCH DOES NOT APPLY " + out[-200:]}
+        env = dict(os.environ, VERIF_REPO=wt, VERIF_EVID=f"{V}/build/mut_evid/{sid}")
+        if seed is not None:
+            env["VERIF_SEED"] = str(seed)
+        for p in plist:
+            if not os.path.exists(f"{V}/harness/props/{p.lower()}.py"):
+                continue
+            t0 = time.time()
+            rc, out = sh(f"cd {V} && ./check {p} --tier {tier}", env=env)
+            lines = [l for l in out.splitlines() if l.startswith("VIOLATION") or l.startswith("  [")]
+            det = rc != 0 and any(l.startswith("VIOLATION") for l in lines)
+            res[p] = {"detected": det, "tier": tier, "seed": seed or 0, "lines": lines[:4], "wall_s": round(time.time() - t0, 1)}
+            print(sid, p, "DETECTED" if det else "missed", lines[1][:150] if len(lines) > 1 else "", flush=True)
+    finally:
+        sh(f"git -C /repo worktree remove --force {wt}; rm -rf {wt}")
+    return sid, res
+
+
 def main():
     args = [a for a in sys.argv[1:] if not a.startswith("--")]
-    props = None
-    tier = "quick"
+    props, tier, jobs, seed = None, "quick", 4, None
     for a in sys.argv[1:]:
         if a.startswith("--props="):
             props = a.split("=")[1].split(",")
         if a.startswith("--tier="):
             tier = a.split("=")[1]
+        if a.startswith("--jobs="):
+            jobs = int(a.split("=")[1])
+        if a.startswith("--seed="):
+            seed = int(a.split("=")[1])
     sids = args or sorted(d for d in os.listdir(f"{V}/seeded") if os.path.isdir(f"{V}/seeded/{d}"))
-    rc, out = sh("git -C /repo status --porcelain --untracked-files=no")
-    assert out.strip() == "", "/repo has uncommitted changes: " + out
-    resf = f"{V}/seeded/results.json"
+    resf = f"{V}/seeded/results.json" if seed is None else f"{V}/seeded/results_seed{seed}.json"
     results = json.load(open(resf)) if os.path.exists(resf) else {}
-    env = dict(os.environ, VERIF_EVID=f"{V}/build/mut_evid")
-    for sid in sids:
-        plist = props or [sid.split("-")[0]]
-        rc, out = sh(f"git -C /repo apply {V}/seeded/{sid}/patch.diff")
-        if rc != 0:
-            print(sid, "PATCH DOES NOT APPLY", out); continue
-        try:
-            for p in plist:
-                if not os.path.exists(f"{V}/harness/props/{p.lower()}.py"):
-                    continue
-                t0 = time.time()
-                rc, out = sh(f"cd {V} && ./check {p} --tier {tier}", env=env)
-                lines = [l for l in out.splitlines() if l.startswith("VIOLATION") or l.startswith("  [")]
-                det = rc != 0 and any(l.startswith("VIOLATION") for l in lines)
-                results.setdefault(sid, {})[p] = {"detected": det, "tier": tier, "lines": lines[:4], "wall_s": round(time.time() - t0, 1)}
-                print(sid, p, "DETECTED" if det else "missed", lines[1][:150] if len(lines) > 1 else "")
-        finally:
-            sh("git -C /repo checkout -- . ")
-        json.dump(results, open(resf, "w"), indent=1)
-    rc, out = sh("git -C /repo status --porcelain --untracked-files=no")
-    assert out.strip() == "", out
+    with ThreadPoolExecutor(max_workers=jobs) as ex:
+        futs = [ex.submit(one, sid, props or [sid.split("-")[0]], tier, seed) for sid in sids]
+        for f in futs:
+            sid, res = f.result()
+            if "error" in res:
+                print(sid, res["error"])
+                continue
+            results.setdefault(sid, {}).update(res)
+    json.dump({k: results[k] for k in sorted(results)}, open(resf, "w"), indent=1)
+    sh("git -C /repo worktree prune")
+
+
 if __name__ == "__main__":
     main()
